@@ -11,9 +11,10 @@ symmetry; fidelity = 1 iff same signed group; canonical form / equality depend o
 Formal specification check (n <= 3): the Lean predicates of the fidelity theorems (`Orth`, the common subgroup A ∩ B) are evaluated on
 every pair through their brute-force executable versions (`stab.overlap`: `orthB_iff`, `commonB_iff` proved exact) and compared with
 the REAL fidelity and with the elimination oracle — so the statement the theorems are about is itself tied to the code's values.
-The hypothesis `hzero` of the fidelity theorems (the synthesis of the first argument reached |0..0>) is evaluated by the model on both
-arguments of every pair (`stab.inv ... zero=`); a wrong fidelity with `zero=1` on both would contradict the theorems and is a VIOLATION,
-with `zero=0` it is the known finding D42.
+The former hypothesis `hzero` of the fidelity theorems (the synthesis of the first argument reached |0..0>) is now itself a theorem
+(`C11.inverse_circuit_ends_in_zero`, D42 repaired in graphiq 74abae4), so the fidelity theorems are unconditional; as a regression it is
+still evaluated by the model on both arguments of every pair (`stab.inv ... zero=`): `zero=0` on a valid state breaks the correspondence
+(`stab.inv:model-not-zero`), and any wrong fidelity is a VIOLATION.
 """
 import numpy as np
 
@@ -25,7 +26,7 @@ LEVEL = "proof"
 TRUSTED_BASE = [
     "Lean 4.33 kernel",
     "hand-written model GraphiqModel/Model/StabTableau.lean (canonical_form, inverse_circuit, inner_product) tied to stabilizer.py/metric.py by this correspondence run",
-    "stabilizer inner-product formula |<a|b>|^2 = 0 (if P in A, -P in B) or 2^-(n-dim(A∩B)) (textbook; the Lean theorems prove inner_product = this group-level value under hzero, the Hilbert-space reading is cited), cross-checked against dense matrices for n<=5 on every run",
+    "stabilizer inner-product formula |<a|b>|^2 = 0 (if P in A, -P in B) or 2^-(n-dim(A∩B)) (textbook; the Lean theorems prove inner_product = this group-level value unconditionally for all n, the Hilbert-space reading is cited), cross-checked against dense matrices for n<=5 on every run",
     "harness, line protocol, independent Python GF(2) elimination",
 ]
 ASSUMPTIONS = ["inputs are valid Clifford tableaux of pure states"]
